@@ -561,7 +561,7 @@ func checkF4(c *fw.Ctx) {
 			var why string
 			if name == "gmsl.CanonicalJSON" {
 				// the validity gate (C01.1)
-				ok = strings.Contains(condsOf(call.Block()), "gjson.Valid(")
+				ok = (strings.Contains(condsOf(call.Block()), "gjson.Valid(") || strings.Contains(condsOf(call.Block()), "gjson.ValidBytes("))
 				why = "behind gjson.Valid"
 			} else {
 				ok, why = established(fn, call, arg, 0)
